@@ -35,9 +35,12 @@ HOT_SHAPES = ["oo", "map-oo", "oo-map", "oo-oo", "map-oo-map"]     # (subscribe_
 COLD_SHAPES = ["so", "map-so", "so-map", "so-so", "oo-so"]
 
 
-def hot_case(shape, items, en, unsub, sched, spurious=False, twice=False):
+def hot_case(shape, items, en, unsub, sched, spurious=False, twice=False, idle=None):
     pipe = wrap(shape, ["hot", 0])
     emit = [["next", 0, v] for v in items] + ([term_of(en)] if term_of(en) else [])
+    if idle is not None and emit:
+        # the source pauses (virtual time): the worker idles on an empty queue in between
+        emit.insert(idle[0] % len(emit), ["sleep", idle[1]])
     threads = [["e"] + emit]
     if unsub:
         threads.append(["u", ["unsub", 0]])
@@ -82,6 +85,8 @@ def generate(rng, tier, seed):
             cases.append(hot_case(shape, items, en, unsub, ["pct", 3, base, 20 if thorough else 8]))
             if rng.random() < 0.5:
                 cases.append(hot_case(shape, items, en, unsub, ["random", base, 20 if thorough else 8], twice=True))
+            if rng.random() < 0.5:
+                cases.append(hot_case(shape, items, en, False, ["random", base, 20 if thorough else 8], idle=(rng.randrange(0, 5), rng.choice([50, 1500, 5000]))))
         for shape in COLD_SHAPES:
             items = [rng.choice([1, 2, 3]) + 10 * i for i in range(rng.randrange(0, 5))]
             en = rng.choice(["c", "c", "e", "n"])
